@@ -8,9 +8,9 @@ Notation V3R := (V3 R).
 Notation M3R := (M3 R).
 Notation PoseR := (Pose R).
 
-Ltac lin_unfold := unfold prel, pmul, pinv, pI, sim3, dist, norm, nrm2, fnorm2, frob, dot, det, tr, mm, mt, mv, I3, V0, M0,
-  diag, madd, msub, mscale, outer, vadd, vsub, vscale, vopp in *; rnum;
-  cbn [prot ptr vx vy vz m00 m01 m02 m10 m11 m12 m20 m21 m22] in *.
+Ltac lin_unfold := cbv [prel pmul pinv pI sim3 dist norm nrm2 fnorm2 frob dot det tr mm mt mv I3 V0 M0
+  diag madd msub mscale outer vadd vsub vscale vopp prot ptr vx vy vz m00 m01 m02 m10 m11 m12 m20 m21 m22
+  n0 n1 nadd nsub nmul ndiv nopp nsqrt nabs nleb nltb neqb nofZ R_ops] in *.
 Ltac m3eq := lin_unfold; f_equal; ring.
 Ltac v3eq := lin_unfold; f_equal; ring.
 
@@ -125,3 +125,75 @@ Proof. apply pinv_left. Qed.
 Lemma SE3_pmul a b : SE3 a -> SE3 b -> SE3 (pmul a b). Proof. apply SO3_mm. Qed.
 Lemma SE3_pinv a : SE3 a -> SE3 (pinv a). Proof. apply SO3_mt. Qed.
 Lemma SE3_pI : SE3 pI. Proof. apply SO3_I. Qed.
+
+(* ---------- scalar facts about rotations (used by C09 angle bounds and C03 trace bound) ---------- *)
+Section Rot.
+Variables a b c d e f g h i : R.
+Hypothesis c1 : a*a + d*d + g*g = 1.
+Hypothesis c2 : b*b + e*e + h*h = 1.
+Hypothesis c3 : c*c + f*f + i*i = 1.
+Hypothesis c12 : a*b + d*e + g*h = 0.
+Hypothesis c13 : a*c + d*f + g*i = 0.
+Hypothesis c23 : b*c + e*f + h*i = 0.
+Hypothesis r1 : a*a + b*b + c*c = 1.
+Hypothesis r2 : d*d + e*e + f*f = 1.
+Hypothesis r3 : g*g + h*h + i*i = 1.
+Hypothesis r12 : a*d + b*e + c*f = 0.
+Hypothesis r13 : a*g + b*h + c*i = 0.
+Hypothesis r23 : d*g + e*h + f*i = 0.
+Hypothesis det1 : a*(e*i - f*h) - b*(d*i - f*g) + c*(d*h - e*g) = 1.
+Lemma rot_key : (h - f)*(h - f) + (c - g)*(c - g) + (d - b)*(d - b) = (1 + (a+e+i)) * (3 - (a+e+i)).
+Proof. nsatz. Qed.
+Lemma rot_tr_ge : -1 <= a + e + i.
+Proof.
+  pose proof rot_key as K.
+  assert (Ha : a <= 1) by nra. assert (He : e <= 1) by nra. assert (Hi : i <= 1) by nra.
+  assert (P : 0 <= (1 + (a+e+i)) * (3 - (a+e+i))).
+  { rewrite <- K. clear. pose proof (Rle_0_sqr (h-f)); pose proof (Rle_0_sqr (c-g)); pose proof (Rle_0_sqr (d-b)); unfold Rsqr in *; lra. }
+  destruct (Req_dec (a+e+i) 3) as [E|NE]; [lra|].
+  assert (P3: 0 < 3 - (a+e+i)) by lra.
+  destruct (Rle_dec (-1) (a+e+i)) as [L|L]; [exact L|].
+  assert (N1: 1 + (a+e+i) < 0) by lra.
+  pose proof (Rmult_lt_compat_r _ _ _ P3 N1) as M. lra.
+Qed.
+End Rot.
+
+Lemma Orth_scalars (w : M3R) : Orth w ->
+  let '(mkM3 a b c d e f g h i) := w in
+  a*a + d*d + g*g = 1 /\ b*b + e*e + h*h = 1 /\ c*c + f*f + i*i = 1 /\
+  a*b + d*e + g*h = 0 /\ a*c + d*f + g*i = 0 /\ b*c + e*f + h*i = 0 /\
+  a*a + b*b + c*c = 1 /\ d*d + e*e + f*f = 1 /\ g*g + h*h + i*i = 1 /\
+  a*d + b*e + c*f = 0 /\ a*g + b*h + c*i = 0 /\ d*g + e*h + f*i = 0.
+Proof.
+  destruct w as [a b c d e f g h i]. intros [H1 H2]. lin_unfold.
+  injection H1; injection H2; intros. repeat split; lra.
+Qed.
+
+Lemma SO3_trace_bounds (w : M3R) : SO3 w -> -1 <= tr w <= 3.
+Proof.
+  intros [O D]. pose proof (Orth_scalars w O) as S.
+  destruct w as [a b c d e f g h i]. destruct S as (c1&c2&c3&c12&c13&c23&r1&r2&r3&r12&r13&r23).
+  lin_unfold. split.
+  - apply (rot_tr_ge a b c d e f g h i); assumption.
+  - assert (a <= 1) by nra. assert (e <= 1) by nra. assert (i <= 1) by nra. lra.
+Qed.
+
+(* ||R - I||_F^2 = 6 - 2 tr R for orthogonal R: a rotation with trace 3 is the identity *)
+Lemma fnorm2_sub_I (w : M3R) : Orth w -> fnorm2 (msub w I3) = 6 - 2 * tr w.
+Proof.
+  intros O. pose proof (Orth_scalars w O) as S.
+  destruct w as [a b c d e f g h i]. destruct S as (c1&c2&c3&_&_&_&_&_&_&_&_&_).
+  lin_unfold. nsatz.
+Qed.
+Lemma fnorm2_zero (w : M3R) : fnorm2 w = 0 -> w = M0.
+Proof.
+  destruct w as [a b c d e f g h i]. lin_unfold. intros H.
+  assert (forall x, 0 <= x * x) by (intros; nra).
+  apply M3_ext; cbn; nra.
+Qed.
+Lemma Orth_tr3_is_I (w : M3R) : Orth w -> tr w = 3 -> w = I3.
+Proof.
+  intros O E. pose proof (fnorm2_sub_I w O) as F. rewrite E in F.
+  assert (Z : fnorm2 (msub w I3) = 0) by lra. apply fnorm2_zero in Z.
+  destruct w as [a b c d e f g h i]. lin_unfold. injection Z; intros. apply M3_ext; cbn; lra.
+Qed.
